@@ -1,0 +1,53 @@
+//go:build verif
+
+package gateway
+
+import (
+	"io"
+
+	"go.sia.tech/core/types"
+)
+
+// Verification hooks (build tag "verif" only): thin wrappers over the
+// unexported Object codec methods so the gateway codecs can be exercised
+// without a mux session.
+
+// VerifEncodeRequest encodes o's request exactly as Stream.WriteRequest does.
+func VerifEncodeRequest(o Object, w io.Writer) error { return withV2Encoder(w, o.encodeRequest) }
+
+// VerifEncodeResponse encodes o's response exactly as Stream.WriteResponse does.
+func VerifEncodeResponse(o Object, w io.Writer) error { return withV2Encoder(w, o.encodeResponse) }
+
+// VerifDecodeRequest decodes o's request exactly as Stream.ReadRequest does.
+func VerifDecodeRequest(o Object, r io.Reader) error {
+	if o.maxRequestLen() == 0 {
+		return nil
+	}
+	return withV2Decoder(r, o.maxRequestLen(), o.decodeRequest)
+}
+
+// VerifDecodeResponse decodes o's response exactly as Stream.ReadResponse does.
+func VerifDecodeResponse(o Object, r io.Reader) error {
+	if o.maxResponseLen() == 0 {
+		return nil
+	}
+	return withV2Decoder(r, o.maxResponseLen(), o.decodeResponse)
+}
+
+// VerifMaxRequestLen returns the receiver-side limit for o's request.
+func VerifMaxRequestLen(o Object) int { return o.maxRequestLen() }
+
+// VerifMaxResponseLen returns the receiver-side limit for o's response.
+func VerifMaxResponseLen(o Object) int { return o.maxResponseLen() }
+
+// VerifEncodeHeader encodes a handshake header.
+func VerifEncodeHeader(h *Header, e *types.Encoder) { h.encodeTo(e) }
+
+// VerifDecodeHeader decodes a handshake header.
+func VerifDecodeHeader(h *Header, d *types.Decoder) { h.decodeFrom(d) }
+
+// VerifEncodeOutline encodes a block outline.
+func VerifEncodeOutline(ob *V2BlockOutline, e *types.Encoder) { ob.encodeTo(e) }
+
+// VerifDecodeOutline decodes a block outline.
+func VerifDecodeOutline(ob *V2BlockOutline, d *types.Decoder) { ob.decodeFrom(d) }
